@@ -653,6 +653,8 @@ func genSkeleton() string {
 	b.WriteString("def atomicUses : List (String × Nat × String) := [\n  " + strings.Join(genAtomicUses(), ",\n  ") + "\n]\n")
 	b.WriteString("\n/-- every function of simple/ops.go that takes the per-inode lock, calls an `_internal` body or commits, with\n    those calls in source order: (name, is a body run under the caller's lock, [(0, _) Acquire | (1, _) Release |\n    (2, the `_internal` body called) | (3, the wait argument of CommitWait as written)]) -/\n")
 	b.WriteString("def simpleLockUses : List (String × Bool × List (Nat × String)) := [\n  " + strings.Join(genSimpleLocks(), ",\n  ") + "\n]\n")
+	b.WriteString("\n/-- the same table for kvs/kvs.go (methods of *KVS; there are no bodies) -/\n")
+	b.WriteString("def kvsLockUses : List (String × Bool × List (Nat × String)) := [\n  " + strings.Join(genLockUses("kvs", "kvs.go"), ",\n  ") + "\n]\n")
 	b.WriteString("\nend GoNfsd.Gen.Skeleton\n")
 	return b.String()
 }
@@ -1049,9 +1051,11 @@ func genMutexSkeleton(b *strings.Builder, total *skel) (names []string, fieldsOu
 // genSimpleLocks: the simple server's version of "locks are given back only after the flush"
 // (Model/Reveal): a handler takes the inode's lock, runs its body — which reads, writes and
 // commits WAITING for the disk — and only then gives the lock back.
-func genSimpleLocks() []string {
+func genSimpleLocks() []string { return genLockUses("simple", "ops.go") }
+
+func genLockUses(dir, file string) []string {
 	fset := token.NewFileSet()
-	f, err := parser.ParseFile(fset, filepath.Join(repo, "simple", "ops.go"), nil, 0)
+	f, err := parser.ParseFile(fset, filepath.Join(repo, dir, file), nil, 0)
 	if err != nil {
 		fail("simple locks: %v", err)
 	}
